@@ -421,6 +421,257 @@ Section Strong.
         unfold s1. rewrite (list_built_iff l s I F m). tauto. }
       intros m. split; [apply EB|]. apply state_determined; auto.
   Qed.
+  (* =============== any Build/Evaluate history: the exact final state *)
+  Definition newly (s s' : state) (m : nat) : Prop :=
+    st_built s' m = true /\ st_built s m = false.
+  (* entries that get a value because a cell enters the cell map: a formula cell
+     with a stored result, and a range node (evaluated when built) with all its
+     ancestors *)
+  Definition gainA (s s' : state) (m : nat) : Prop :=
+    (newly s s' m /\ wb_range W m = false /\ wb_stored W m <> VNone)
+    \/ exists r, newly s s' r /\ wb_range W r = true /\ (m = r \/ anc W m r).
+  (* entries that get a value because a node was evaluated *)
+  Definition gainE (h : list gop) (m : nat) : Prop :=
+    exists n, In (Evaluate n) h /\ (m = n \/ anc W m n).
+
+  Lemma newly_split s s1 s' x :
+    (forall y, st_built s y = true -> st_built s1 y = true) ->
+    (forall y, st_built s1 y = true -> st_built s' y = true) ->
+    (newly s s' x <-> newly s s1 x \/ newly s1 s' x).
+  Proof.
+    intros M1 M2. specialize (M1 x). specialize (M2 x). unfold newly.
+    destruct (st_built s x), (st_built s1 x), (st_built s' x);
+      try (specialize (M1 eq_refl); discriminate); try (specialize (M2 eq_refl); discriminate);
+      intuition congruence.
+  Qed.
+
+  Lemma gainA_split s s1 s' m :
+    (forall y, st_built s y = true -> st_built s1 y = true) ->
+    (forall y, st_built s1 y = true -> st_built s' y = true) ->
+    (gainA s s' m <-> gainA s s1 m \/ gainA s1 s' m).
+  Proof.
+    intros M1 M2. unfold gainA. split.
+    - intros [[Nw R]|[r [Nw R]]]; apply (newly_split s s1 s' _ M1 M2) in Nw; destruct Nw as [Nw|Nw].
+      + left; left; auto.
+      + right; left; auto.
+      + left; right; exists r; auto.
+      + right; right; exists r; auto.
+    - intros [[[Nw R]|[r [Nw R]]]|[[Nw R]|[r [Nw R]]]].
+      + left. split; auto. apply (newly_split s s1 s' _ M1 M2); auto.
+      + right. exists r. split; auto. apply (newly_split s s1 s' _ M1 M2); auto.
+      + left. split; auto. apply (newly_split s s1 s' _ M1 M2); auto.
+      + right. exists r. split; auto. apply (newly_split s s1 s' _ M1 M2); auto.
+  Qed.
+
+  Lemma gainE_cons o h m :
+    gainE (o :: h) m <-> (exists n, o = Evaluate n /\ (m = n \/ anc W m n)) \/ gainE h m.
+  Proof.
+    unfold gainE. split.
+    - intros [n [[Hn|Hn] A]]; [left|right]; exists n; auto.
+    - intros [[n [Hn A]]|[n [Hn A]]]; exists n; split; auto; [left|right]; auto.
+  Qed.
+
+  Lemma bfold_region s b' : (forall m, b' m = true -> m < N) ->
+    forall l c, Coherent W sem c -> forall m,
+      fold_left (bstep W sem s b') l c m = c m
+      \/ exists r, In r l /\ fresh s b' r && wb_range W r = true /\ (m = r \/ anc W m r).
+  Proof.
+    intros BL. induction l as [|a l IHl]; intros c K m; cbn [fold_left]; [left; auto|].
+    set (c1 := bstep W sem s b' c a).
+    assert (St: Coherent W sem c1 /\
+                (c1 m = c m \/ (fresh s b' a && wb_range W a = true /\ (m = a \/ anc W m a)))).
+    { unfold c1, bstep. destruct (fresh s b' a && wb_range W a) eqn:C.
+      - pose proof C as C'. apply andb_prop in C'. destruct C' as [Fa _].
+        unfold fresh in Fa. apply andb_prop in Fa. destruct Fa as [Ba _].
+        pose proof (BL a Ba) as La.
+        destruct (eval_top W sem WF NB c a La K) as (E & _ & _). split.
+        + apply (ext_coherent W sem WF _ c _ K E).
+        + destruct (ext_region W sem _ _ _ m E) as [H|H]; auto.
+      - split; auto. }
+    destruct St as [K1 H1]. destruct (IHl c1 K1 m) as [H2|[r [Hr H2]]].
+    - destruct H1 as [H1|H1].
+      + left; congruence.
+      + right; exists a; split; [left; auto|auto].
+    - right; exists r; split; [right; auto|auto].
+  Qed.
+
+  Lemma valued_built s m : Inv s -> isinput m = false -> st_cache s m <> VNone ->
+    st_built s m = true.
+  Proof.
+    intros I Im H. destruct (st_built s m) eqn:B; auto.
+    exfalso. apply H. rewrite (inv_unbuilt W sem s I m B), Im. reflexivity.
+  Qed.
+
+  Lemma build_valued_iff s n m : Inv s -> n < N -> isinput m = false ->
+    (st_cache (build W sem s n) m <> VNone
+     <-> st_cache s m <> VNone \/ gainA s (build W sem s n) m).
+  Proof.
+    intros I L Im. pose proof (build_inv W sem WF NB s n SO I L) as I1. split.
+    - rewrite build_unfold. cbn zeta. unfold gainA, newly. cbn [st_cache st_built].
+      set (b' := closure W (S N) (st_built s) n).
+      destruct (closure_props W WF (st_built s) n L (inv_lt W sem s I) (inv_deps W sem s I))
+        as (C1 & C2 & C3 & C4).
+      fold b' in C1, C2, C3, C4.
+      intros H.
+      destruct (bfold_region s b' C3 (seq 0 N) (build_c1 W s b')
+                  (build_c1_coherent W sem WF s b' I) m) as [E|[r [_ [Fr A]]]].
+      + rewrite E in H. unfold build_c1 in H. rewrite Im in H. cbn [negb] in H.
+        rewrite andb_true_r in H. destruct (fresh s b' m) eqn:Fm.
+        * unfold fresh in Fm. apply andb_prop in Fm. destruct Fm as [B1 B0].
+          apply negb_true_iff in B0.
+          destruct (wb_range W m) eqn:Rm; [congruence|]. right. left. auto.
+        * left. exact H.
+      + apply andb_prop in Fr. destruct Fr as [Fr Rr]. unfold fresh in Fr.
+        apply andb_prop in Fr. destruct Fr as [B1 B0]. apply negb_true_iff in B0.
+        right. right. exists r. auto.
+    - intros [H|[[[B1 B0] [Rm Sm]]|[r [[B1 B0] [Rr A]]]]].
+      + rewrite build_keeps; auto. now apply valued_built.
+      + revert B1. rewrite build_unfold. cbn zeta. cbn [st_cache st_built].
+        set (b' := closure W (S N) (st_built s) n). intros B1.
+        destruct (closure_props W WF (st_built s) n L (inv_lt W sem s I) (inv_deps W sem s I))
+          as (C1 & C2 & C3 & C4).
+        fold b' in C1, C2, C3, C4.
+        destruct (bfold W sem WF NB s b' C3 C4 (seq 0 N) (build_c1 W s b')
+                    (build_c1_coherent W sem WF s b' I)) as [E _].
+        assert (E0: build_c1 W s b' m = wb_stored W m).
+        { unfold build_c1, fresh. rewrite B1, B0, Im, Rm. reflexivity. }
+        eapply ext_keeps; [exact E|]. now rewrite E0.
+      + assert (Vr: st_cache (build W sem s n) r <> VNone).
+        { apply (build_range_valued W sem WF (nonblank_weaken W sem NB) s n r I L Rr B0 B1). }
+        destruct A as [->|A]; auto.
+        apply (anc_valued (build W sem s n) I1 m r A B1 Vr Im).
+  Qed.
+
+  Lemma evaluate_valued_iff s n m : Inv s -> n < N -> isinput m = false ->
+    (st_cache (fst (evaluate s n)) m <> VNone
+     <-> st_cache (build W sem s n) m <> VNone \/ (m = n \/ anc W m n)).
+  Proof.
+    intros I L Im. pose proof (build_inv W sem WF NB s n SO I L) as I1.
+    destruct (evaluate_inv W sem WF NB s n SO I L) as (I2 & _ & _).
+    destruct (evaluate_valued s n I L) as [Bn Vn].
+    destruct (eval_top W sem WF NB _ n L (Inv_coherent W sem _ I1)) as (E & _ & _).
+    split.
+    - rewrite evaluate_unfold. cbn [fst st_cache]. intros H.
+      destruct (ext_region W sem _ _ _ m E) as [H1|H1]; [left; now rewrite <- H1|right; exact H1].
+    - intros [H|[->|A]].
+      + rewrite evaluate_unfold. cbn [fst st_cache]. eapply ext_keeps; eauto.
+      + auto.
+      + assert (In: isinput n = false) by (eapply anc_noninput; eauto).
+        apply (anc_valued _ I2 m n A Bn (Vn In) Im).
+  Qed.
+
+  Lemma step_valued_iff s o m : Inv s -> be_op o -> isinput m = false ->
+    (st_cache (fst (step W sem s o)) m <> VNone
+     <-> st_cache s m <> VNone \/ gainA s (fst (step W sem s o)) m
+         \/ exists n, o = Evaluate n /\ (m = n \/ anc W m n)).
+  Proof.
+    intros I OK Im. destruct o as [n|a v|n]; cbn [C05.be_op] in OK; [| contradiction |];
+      cbn [step fst].
+    - pose proof (evaluate_valued_iff s n m I OK Im) as P1.
+      pose proof (build_valued_iff s n m I OK Im) as P2.
+      assert (P3: gainA s (fst (evaluate s n)) m <-> gainA s (build W sem s n) m).
+      { unfold gainA, newly. rewrite evaluate_built. tauto. }
+      split.
+      + intros H. apply P1 in H. destruct H as [H|H].
+        * apply P2 in H. destruct H as [H|H]; auto. right; left. now apply P3.
+        * right; right. exists n; auto.
+      + intros [H|[H|[n0 [Eq H]]]]; apply P1.
+        * left. apply P2. auto.
+        * left. apply P2. right. now apply P3.
+        * inversion Eq; subst. auto.
+    - pose proof (build_valued_iff s n m I OK Im) as P2. split.
+      + intros H. apply P2 in H. destruct H; auto.
+      + intros [H|[H|[n0 [Eq _]]]]; [apply P2; auto|apply P2; auto|discriminate].
+  Qed.
+
+  Lemma run_valued_iff : forall h s, Inv s -> Forall be_op h -> forall m, isinput m = false ->
+    (st_cache (fst (run W sem s h)) m <> VNone
+     <-> st_cache s m <> VNone \/ gainA s (fst (run W sem s h)) m \/ gainE h m).
+  Proof.
+    induction h as [|o h IH]; intros s I F m Im.
+    - cbn [run fst]. split; auto. intros [H|[H|H]]; auto.
+      + destruct H as [[[B1 B0] _]|[r [[B1 B0] _]]]; congruence.
+      + destruct H as [n [[] _]].
+    - inversion F as [|? ? Fo Fh]; subst. rewrite run_cons. cbn [fst].
+      destruct (be_step W sem WF NB SO s o I Fo) as [I1 _].
+      pose proof (step_valued_iff s o m I Fo Im) as P2.
+      set (s1 := fst (step W sem s o)) in *.
+      pose proof (IH s1 I1 Fh m Im) as P1.
+      assert (M1: forall y, st_built s y = true -> st_built s1 y = true).
+      { intros y B. apply (be_step_keeps s o y I Fo B). }
+      assert (M2: forall y, st_built s1 y = true -> st_built (fst (run W sem s1 h)) y = true).
+      { intros y B. apply (be_run_keeps y h s1 I1 Fh B). }
+      pose proof (gainA_split s s1 (fst (run W sem s1 h)) m M1 M2) as P3.
+      pose proof (gainE_cons o h m) as P4.
+      tauto.
+  Qed.
+
+  Definition op_node (o : gop) : nat :=
+    match o with Evaluate n => n | Build n => n | SetValue a _ => a end.
+
+  Lemma run_built_iff : forall h s, Inv s -> Forall be_op h -> forall m,
+    st_built (fst (run W sem s h)) m = true
+    <-> st_built s m = true \/ exists o, In o h /\ (m = op_node o \/ anc W m (op_node o)).
+  Proof.
+    induction h as [|o h IH]; intros s I F m.
+    - cbn. split; auto. intros [H|[o [[] _]]]; auto.
+    - inversion F as [|? ? Fo Fh]; subst. rewrite run_cons. cbn [fst].
+      destruct (be_step W sem WF NB SO s o I Fo) as [I1 _].
+      assert (P: st_built (fst (step W sem s o)) m = true
+                 <-> st_built s m = true \/ (m = op_node o \/ anc W m (op_node o))).
+      { destruct o as [n|a v|n]; cbn [C05.be_op] in Fo; [| contradiction |]; cbn [step fst op_node].
+        - now apply evaluate_built_iff.
+        - now apply build_built_iff. }
+      pose proof (IH _ I1 Fh m) as Q. split.
+      + intros H. apply Q in H. destruct H as [H|[o' [Ho H]]].
+        * apply P in H. destruct H as [H|H]; auto. right. exists o. split; [left; auto|auto].
+        * right. exists o'. split; [right; auto|auto].
+      + intros [H|[o' [[->|Ho] H]]]; apply Q.
+        * left. apply P. auto.
+        * left. apply P. auto.
+        * right. exists o'. auto.
+  Qed.
+
+  (* two histories with the same operations (in particular two permutations of
+     one history): pointwise EQUAL final states *)
+  Theorem history_order s h1 h2 : Inv s -> Forall be_op h1 -> Forall be_op h2 ->
+    (forall o, In o h1 <-> In o h2) ->
+    forall m, st_built (fst (run W sem s h1)) m = st_built (fst (run W sem s h2)) m
+              /\ st_cache (fst (run W sem s h1)) m = st_cache (fst (run W sem s h2)) m.
+  Proof.
+    intros I F1 F2 EM.
+    assert (EB: forall m, st_built (fst (run W sem s h1)) m = st_built (fst (run W sem s h2)) m).
+    { intros m. apply eq_true_iff_eq.
+      rewrite (run_built_iff h1 s I F1 m), (run_built_iff h2 s I F2 m).
+      split; (intros [H|[o [Ho H]]]; [auto|right; exists o; split; [apply EM; auto|auto]]). }
+    intros m. split; [apply EB|].
+    destruct (be_run W sem WF NB SO h1 s I F1) as [I1 K1].
+    destruct (be_run W sem WF NB SO h2 s I F2) as [I2 K2].
+    destruct (isinput m) eqn:Im; [rewrite K1, K2; auto|].
+    pose proof (run_valued_iff h1 s I F1 m Im) as P1.
+    pose proof (run_valued_iff h2 s I F2 m Im) as P2.
+    assert (GA: gainA s (fst (run W sem s h1)) m <-> gainA s (fst (run W sem s h2)) m).
+    { unfold gainA, newly. split.
+      - intros [[[B1 B0] R]|[r [[B1 B0] R]]].
+        + left. split; auto. split; auto. now rewrite <- EB.
+        + right. exists r. split; auto. split; auto. now rewrite <- EB.
+      - intros [[[B1 B0] R]|[r [[B1 B0] R]]].
+        + left. split; auto. split; auto. now rewrite EB.
+        + right. exists r. split; auto. split; auto. now rewrite EB. }
+    assert (GE: gainE h1 m <-> gainE h2 m).
+    { unfold gainE. split; intros [n [Hn A]]; exists n; split; auto; apply EM; auto. }
+    assert (X: st_cache (fst (run W sem s h1)) m <> VNone
+               <-> st_cache (fst (run W sem s h2)) m <> VNone) by tauto.
+    destruct (is_none (st_cache (fst (run W sem s h1)) m)) eqn:E1;
+      destruct (is_none (st_cache (fst (run W sem s h2)) m)) eqn:E2.
+    - apply is_none_true in E1, E2. now rewrite E1, E2.
+    - apply is_none_true in E1. apply is_none_false in E2. apply X in E2. contradiction.
+    - apply is_none_true in E2. apply is_none_false in E1. apply X in E1. contradiction.
+    - apply is_none_false in E1, E2.
+      assert (L: m < N) by (apply (inv_lt W sem _ I1), valued_built; auto).
+      rewrite (valued_is_spec s h1 m I F1 L (or_intror E1)).
+      rewrite (valued_is_spec s h2 m I F2 L (or_intror E2)). reflexivity.
+  Qed.
 End Strong.
 
 (* ================================================================ weak *)
@@ -619,6 +870,16 @@ Section WeakList.
     rewrite (evaluate_list_g l s F), (evaluate_list_g l _ F).
     apply (list_repeat W g WF NB2 SO2 s l I S F).
   Qed.
+  (* C05_history_order *)
+  Theorem history_order_weak s h1 h2 : Inv W sem s -> Forall (be_op W) h1 -> Forall (be_op W) h2 ->
+    (forall o, In o h1 <-> In o h2) ->
+    forall m, st_built (fst (run W sem s h1)) m = st_built (fst (run W sem s h2)) m
+              /\ st_cache (fst (run W sem s h1)) m = st_cache (fst (run W sem s h2)) m.
+  Proof.
+    intros I F1 F2 EM. apply (Inv_guard W sem WF NBW) in I.
+    rewrite (run_g h1 s F1), (run_g h2 s F2).
+    apply (history_order W g WF NB2 SO2 s h1 h2 I F1 F2 EM).
+  Qed.
 End WeakList.
 
 (* ---- the hypotheses are satisfiable (tests, not theorems): the two-column
@@ -703,4 +964,26 @@ Example xl_list_repeat :
 Proof.
   apply (list_repeat_weak exaW exa_sem (exa_wf _) (exa_weak _) xo_stored (init exaW) _ xo_inv
            (settled_init exaW) xl_ltN).
+Qed.
+
+(* two orders of the same Build/Evaluate operations (a stored-result workbook:
+   exaWs of Proofs/C01AliasExample.v stores results for nodes 4 and 5) *)
+Example xl_history_order :
+  forall m, st_built (fst (run exaWs exa_sem (init exaWs) [Build 5; Evaluate 4; Build 2; Evaluate 0])) m
+            = st_built (fst (run exaWs exa_sem (init exaWs) [Evaluate 0; Build 2; Evaluate 4; Build 5; Build 2])) m
+         /\ st_cache (fst (run exaWs exa_sem (init exaWs) [Build 5; Evaluate 4; Build 2; Evaluate 0])) m
+            = st_cache (fst (run exaWs exa_sem (init exaWs) [Evaluate 0; Build 2; Evaluate 4; Build 5; Build 2])) m.
+Proof.
+  assert (SO: stored_ok exaWs exa_sem).
+  { split.
+    - intros n L I R _. now apply exas_consistent.
+    - intros p d Ld Hd Ip Rp Sp _. exfalso.
+      pose proof (deps_ltN exaWs (exa_wf _) _ _ Ld Hd) as Lp.
+      rewrite (exas_consistent p Lp Ip Rp) in Sp. cbn in Lp.
+      destruct p as [|[|[|[|[|[|p]]]]]]; try lia; try discriminate; vm_compute in Sp; discriminate. }
+  apply (history_order_weak exaWs exa_sem (exa_wf _) (exa_weak _) SO (init exaWs)).
+  - apply (invariant_weak exaWs exa_sem (exa_wf _) (exa_weak _) SO).
+  - repeat constructor; cbn; lia.
+  - repeat constructor; cbn; lia.
+  - intros o. cbn [In]. tauto.
 Qed.
